@@ -47,6 +47,17 @@ def check(case):
     f = Fails()
     txins = [txref.ser_in(i) for i in rtx["ins"]]
     txouts = [txref.ser_out(o) for o in rtx["outs"]]
+    if case.get("prior"):
+        # history: a different transaction spending the SAME outpoints (other sequences / outputs, e.g. a fee bump) is
+        # processed first in the same process; its result is checked too
+        cls.append("nt:after-related-tx")
+        v = case["prior"]
+        rtx2 = dict(rtx, ins=[dict(i, sequence=(i["sequence"] ^ v["seqx"]) & 0xFFFFFFFF) for i in rtx["ins"]],
+                    outs=[dict(o, value=(o["value"] + v["dv"]) % 2**63) for o in rtx["outs"]][: max(1, len(rtx["outs"]) - v["drop"])])
+        w2 = txref.bip143_preimage(rtx2, idx, sc_ser, amount, flag)
+        g2 = attempt(b143.witness_message, [txref.ser_in(i) for i in rtx2["ins"]], idx, amount, sc_ser, [txref.ser_out(o) for o in rtx2["outs"]],
+                     version=rtx2["version"], locktime=rtx2["locktime"], sighash_flag=flag)
+        f.expect(not raised(g2) and g2 == w2, f"preimage/ne-bip143/related-tx-first/{FLAGNAME[flag]}", _diff(g2, w2))
     want = txref.bip143_preimage(rtx, idx, sc_ser, amount, flag)
     got = attempt(b143.witness_message, txins, idx, amount, sc_ser, txouts, version=rtx["version"], locktime=rtx["locktime"], sighash_flag=flag)
     tag = FLAGNAME[flag] + ("/idx>=out" if idx >= len(rtx["outs"]) else "")
@@ -138,6 +149,8 @@ def cases(draw, sign=False):
     }
     if sign:
         case["sign"] = {"key": draw(gen.scalars_valid())}
+    if draw(st.integers(0, 2)) == 0:
+        case["prior"] = {"seqx": draw(st.sampled_from([1, 2, 0xFFFFFFFF])), "dv": draw(st.integers(1, 1000)), "drop": draw(st.integers(0, 1))}
     return case
 
 
@@ -171,7 +184,7 @@ SELFCHECKS.append(selfcheck_corpus)
 def targets(tier):
     req = [f"nt:{FLAGNAME[fl]}/{w}" for fl in (3, 0x83) for w in ("idx<out", "idx>=out")] + ["flag:" + n for n in FLAGNAME.values()]
     return [
-        Target("preimage", check, strategy=lambda tier: cases(), budget={"quick": 8000, "thorough": 250000}, required=req + ["nt:scriptcode>=253", "nt:index>0"]),
+        Target("preimage", check, strategy=lambda tier: cases(), budget={"quick": 8000, "thorough": 250000}, required=req + ["nt:scriptcode>=253", "nt:index>0", "nt:after-related-tx"]),
         Target("signed", check, strategy=lambda tier: cases(sign=True), budget={"quick": 96, "thorough": 2000}, required=["nt:signed"]),
         Target("fixed-corpus", check, enumerate_=enum_corpus, shards=1),
     ]
